@@ -126,6 +126,12 @@ def inproc(ctx):
     defs = "Definition cases : list case4 := [\n%s\n].\n" % ";\n".join(terms)
     defs += "Definition nestchk : list bool := [%s].\n" % "; ".join(
         coq.coq_bool(c["complete"] and not has_switch(c["cfg"])) for c in cases)
+    # embedded sub-history (theorem C05_recorded_is_embedded_subhistory): every switch-free option set, complete
+    # forest within --max-stack - also inside the known -pg leak class
+    embi = [i for i, c in enumerate(cases) if c["complete"] and not has_switch(c["cfg"])
+            and c02.height(c["forest"]) <= (c["cfg"].get("max_stack") or 1024)]
+    defs += "Definition embchk : list bool := [\n%s\n].\n" % ";\n".join(
+        "ok_emb %s %s" % (F.coq_forest(cases[i]["forest"]), mcgen.coq_recs(cases[i]["res"]["recs"])) for i in embi)
     plain = [(i, c02.coq_plain_check(c["cfg"], c["forest"], c["res"]["recs"])) for i, c in enumerate(cases)
              if is_plain(c["cfg"]) and c["complete"] and not (c["cfg"].get("threshold") and
                                                               c02.height(c["forest"]) > (c["cfg"].get("max_stack") or 1024))
@@ -148,6 +154,7 @@ def inproc(ctx):
         ("nested", "bad_indices (fun p : case4 * bool => let '((a, b, _, r), chk) := p in "
                    "negb chk || leaky a b || ok_nested r) (combine cases nestchk) 0"),
         ("plain", "bad_indices (fun b : bool => b) plainchk 0"),
+        ("emb", "bad_indices (fun b : bool => b) embchk 0"),
         ("method", "bad_indices (fun p : cfg * list ev * list seen5 * list seen5 => let '(a, b, r1, r2) := p in "
                    "leaky a b || list_eqb seen_eqb r1 r2) pairs 0"),
     ], timeout=1500)
@@ -157,6 +164,7 @@ def inproc(ctx):
     ctx.extra["cases_in_known_leak_class"] = len(R["leaky"])
     ctx.extra["disagreements_checked"] = len(R["mismatch"])
     ctx.extra["plain_spec_checks"] = len(plain)
+    ctx.extra["embedded_subhistory_checks"] = len(embi)
 
     def rep(i, what, extra=None):
         c = cases[i]
@@ -170,6 +178,9 @@ def inproc(ctx):
         rep(i, "C05: recorded stream is not properly nested (a recorded call lacks a recorded ancestor / depth wrong)")
     for j in R["plain"][:2]:
         rep(plain[j][0], "C05: recorded trace differs from the documented -t/-D semantics")
+    for j in R["emb"][:2]:
+        rep(embi[j], "C05: the recorded stream is not an embedded sub-history of the call history (a record that is no "
+                     "call's ENTRY/EXIT, wrong order/time/depth, or a recorded call without its recorded ancestors)")
     for j in R["sel"][:2]:
         c = selcases[j]
         ctx.violation("C05: recorded trace differs from the documented -F/-N/-D semantics (specification sel)",
@@ -180,7 +191,7 @@ def inproc(ctx):
         ctx.violation("C05: recorded trace depends on the instrumentation method",
                       {"mode": "pair", "cfg": p["cfg"], "events": p["evs"], "pg_records": p["pg"]["recs"],
                        "cyg_records": p["cyg"]["recs"]}, True)
-    if R["mismatch"] and not (R["restore"] or R["nested"] or R["plain"] or R["method"] or R["sel"]):
+    if R["mismatch"] and not (R["restore"] or R["nested"] or R["plain"] or R["method"] or R["sel"] or R["emb"]):
         c = cases[R["mismatch"][0]]
         ctx.violation("model and libmcount disagree on %d case(s); the C05 checkers accept every explored "
                       "implementation output" % len(R["mismatch"]),
